@@ -482,7 +482,9 @@ def atom_arguments():
             full[x.first:x.first + 2] = xv
             return float(np.asarray(atoms.den_convex(cv, full), dtype=float).reshape(-1)[0])
         for Q, sign in ((np.array([[5.0, 5.0], [5.0, 10.0]]), 1), (np.array([[-2.0, 1.0], [1.0, -3.0]]), -1), (np.array([[1.0, 2.0], [2.0, 4.0]]), 1),
-                        (np.zeros((2, 2)), 1), (np.array([[2.0, 0.0], [0.0, 0.0]]), 1)):
+                        (np.zeros((2, 2)), 1), (np.array([[2.0, 0.0], [0.0, 0.0]]), 1),
+                        # NON-SYMMETRIC matrices: x'Qx is the form of the symmetric part (Q + Q')/2, whose eigenvalues decide
+                        (np.array([[2.0, 1.0], [0.0, 1.0]]), 1), (np.array([[2.0, -1.5], [0.5, 3.0]]), 1), (np.array([[-2.0, 0.0], [1.0, -1.0]]), -1)):
             for recv in (x, e, x[::-1]):
                 cv = rsome.quad(recv, Q)
                 if cv.sign != sign and not (Q == 0).all():
@@ -494,6 +496,8 @@ def atom_arguments():
         must_raise = {
             "quad with an indefinite matrix": lambda: rsome.quad(x, np.array([[1.0, 3.0], [3.0, 1.0]])),
             "quad of a 2-D array": lambda: rsome.quad(X2, np.eye(2)),
+            "quad with a non-symmetric matrix whose symmetric part is indefinite (upper entry)": lambda: rsome.quad(x, np.array([[1.0, 4.0], [0.0, 1.0]])),
+            "quad with a non-symmetric matrix whose symmetric part is indefinite (lower entry)": lambda: rsome.quad(x, np.array([[1.0, 0.0], [4.0, 1.0]])),
             "pnorm degree 1": lambda: rsome.pnorm(x, 1), "pnorm degree 0.5": lambda: rsome.pnorm(x, 0.5), "pnorm degree (2,3)": lambda: rsome.pnorm(x, (2, 3)),
             "pnorm degree (3.0,2)": lambda: rsome.pnorm(x, (3.0, 2)), "pnorm float degree with method soc": lambda: rsome.pnorm(x, 2.5, method="soc"),
             "pnorm unknown method": lambda: rsome.pnorm(x, 3, method="lp"), "pnorm of a 2-D array": lambda: rsome.pnorm(X2, 3),
@@ -514,7 +518,7 @@ def atom_arguments():
             return "power(x, 2, 2) is not abs(x)"
         return True
     return check_enumeration("rsome.lp:Affine.<atom constructors>", "arguments-outside-the-convex-discipline-raise-and-semidefinite-quadratic-forms-denote-x'Qx",
-                             "quad (5 matrices x 3 receivers x 3 points) and 22 invalid calls", run)
+                             "quad (8 matrices incl. non-symmetric ones x 3 receivers x 3 points) and 24 invalid calls", run)
 
 
 def bilinear():
